@@ -41,7 +41,13 @@ EmitFdPos == \A c \in Bodied, k \in {1, 2, 32, 33}, pos \in {0, 1}, pre \in {<<>
           PrintT(<<"HCASE", ToJson([dev |-> [vf |-> {VF_PROTOCOL_FEATURES}, pf |-> {}],
                                     steps |-> pre \o <<[c |-> c, nr |-> FALSE, h |-> "ok", v |-> {}, var |-> "nfds." \o ToString(k),
                                                        seg |-> <<HDR_SIZE>>, fdseg |-> pos, cut |-> -1]>>])>>)
-Init == done = FALSE /\ Emit /\ EmitFdPos
+\* ... and to a later piece of the *header* (the header itself arrives in two receives), or to every piece of the message
+EmitFdHdr == \A c \in FeServed, k \in {1, 2}, sg \in {<<4>>, <<4, HDR_SIZE>>}, all \in BOOLEAN, pre \in {<<>>, Negotiated} :
+          \A pos \in (IF all THEN {0} ELSE 1..Len(sg)) :
+          PrintT(<<"HCASE", ToJson([dev |-> [vf |-> {VF_PROTOCOL_FEATURES}, pf |-> {}],
+                                    steps |-> pre \o <<[c |-> c, nr |-> FALSE, h |-> "ok", v |-> {}, var |-> "nfds." \o ToString(k),
+                                                       seg |-> sg, fdseg |-> pos, fdall |-> all, cut |-> -1]>>])>>)
+Init == done = FALSE /\ Emit /\ EmitFdPos /\ EmitFdHdr
 Next == ~done /\ done' = TRUE
 Spec == Init /\ [][Next]_done
 =============================================================================
